@@ -342,7 +342,10 @@ class CalibrationDataBlock(Block):
         self.distorsion_model = distorsion_model
         "Distorsion model of the calibration"
 
-        if calibration_volume_size.shape != VEC3F.btype.shape:
+        if (
+            not isinstance(calibration_volume_size, np.ndarray)
+            or calibration_volume_size.shape != VEC3F.btype.shape
+        ):
             raise ValueError(
                 (
                     "calibration_volume_size must be a "
@@ -353,7 +356,10 @@ class CalibrationDataBlock(Block):
         self.calibration_volume_size = calibration_volume_size
         "Size of the calibration volume"
 
-        if calibration_volume_rotation_matrix.shape != MAT3X3F.btype.shape:
+        if (
+            not isinstance(calibration_volume_rotation_matrix, np.ndarray)
+            or calibration_volume_rotation_matrix.shape != MAT3X3F.btype.shape
+        ):
             raise ValueError(
                 (
                     "calibration_volume_rotation_matrix must "
@@ -364,7 +370,10 @@ class CalibrationDataBlock(Block):
         self.calibration_volume_rotation_matrix = calibration_volume_rotation_matrix
         "Rotation matrix of the calibration volume"
 
-        if calibration_volume_translation_vector.shape != VEC3F.btype.shape:
+        if (
+            not isinstance(calibration_volume_translation_vector, np.ndarray)
+            or calibration_volume_translation_vector.shape != VEC3F.btype.shape
+        ):
             raise ValueError(
                 (
                     "calibration_volume_translation_vector must "
